@@ -41,3 +41,32 @@ claim("C19",
       "missing), import of the export denotes the same column and keeps the invariant, transposing twice is the identity, import of any well-formed "
       "list-of-structs chunk keeps its rows. Correspondence: export/import/double transposition/astype/Table.from_pandas/casts on 15 layouts.",
       NOTE, "Coq proof (transposition refinement) + correspondence check", "DESIGN.md 6/C19")
+claim("C02",
+      "Theorems (Props/C02.v): for EVERY flat table (any length, any multiset of labels in any order) flatten(pack_flat t) is exactly the stable sort of t "
+      "by label (permutation, sorted, original order inside each label - proved, which pins it uniquely), the packed labels are distinct and ascending, no "
+      "empty row is invented; for EVERY column with distinct ascending labels pack(flatten) gives it back minus the rows without elements; an unsorted index "
+      "is refused by pack_sorted. Correspondence: tables up to 300 records and all label shapes, the list and element views on 15 layouts, dtypes compared.",
+      NOTE, "Coq proof (packer offsets/grouping and stable sort) + correspondence check", "DESIGN.md 6/C02")
+claim("C07",
+      "Theorems (Props/C07.v): for EVERY list of rows and EVERY per-record predicate, the nested query mechanism (ordinal re-index, boolean selection, "
+      "re-pack by first occurrences of the surviving ordinals, aligned write-back) gives row by row exactly the satisfying records in order, a row left "
+      "without records is missing, row count unchanged; wrong mask length refused. Correspondence: generated conditions (comparisons, arithmetic, & | ~, "
+      "backticks) on frames with all label kinds and 15 layouts; per-record truth values from plain pandas on one row at a time; whole-frame snapshots; "
+      "base-layer and mixed-layer conditions.",
+      NOTE, "Coq proof (regroup-filter theorem by induction over rows) + correspondence check", "DESIGN.md 6/C07")
+claim("C09",
+      "Theorems (Props/C09.v): for EVERY flat table and base labels the left join gives row i exactly the records carrying its label in original relative "
+      "order (missing when none); the same for every row of any join plan; from_flat keeps the first occurrence per label in first-occurrence order. "
+      "Correspondence: four join kinds, on=column, dtype, from_flat, from_lists, nest_lists, new nest by setitem; row set/order vs plain pandas join.",
+      NOTE, "Coq proof (label lookup in the packed column) + correspondence check", "DESIGN.md 6/C09")
+claim("C11",
+      "Theorems (Props/C11.v): with the pandas sort as a PARAMETER (any permutation of the flat table keeping the ordinal ascending; no stability assumed) "
+      "every row's table is a permutation of its own records, rows without records come back missing, and every row is sorted by ANY order rec_le when the "
+      "sorter's output is; a sorter not led by the ordinal is refused; the canonical sorter meets the contract. Correspondence: verified checker "
+      "(row-wise multiset equality + sortedness under the per-case order) on ties / nulls / NaN / per-key directions / na_position, 15 layouts.",
+      NOTE, "Coq proof (relational sort specification) + verified checker on the real results", "DESIGN.md 6/C11")
+claim("C12",
+      "Theorems (Props/C12.v): for EVERY list of rows and every how/thresh/subset, nested dropna keeps row by row exactly the complete records in order, "
+      "emptied rows become missing, row count unchanged (same regroup theorem as C07 with pandas' row predicate). Correspondence: all target forms "
+      "(on_nested, dotted subset, both, conflicting, two layers, base), whole-frame snapshots.",
+      NOTE, "Coq proof (regroup-filter theorem) + correspondence check", "DESIGN.md 6/C12")
